@@ -45,6 +45,11 @@ def relayout(oFile, K, kind, r):
             v = r.choice([" -- added", "--x", "  -- added; end if; begin"]) + "\n"
         elif kind == "comment" and k == "cr" and i > 0 and kinds[i - 1] == "cr" and r.random() < 0.1:
             v = "-- own line\n\n"
+        elif kind == "pragma" and k == "ws" and i > 0 and kinds[i - 1] == "code" and i + 1 < n and kinds[i + 1] == "code" and r.random() < 0.1:
+            # an own-line comment that looks like a tool directive, between two tokens of one statement
+            v = "\n" + " " * r.randint(0, 4) + r.choice(["-- xilinx workaround", "-- altera only", "-- synopsys translate_off", "-- pragma coverage_off", "-- synthesis translate_on"]) + "\n" + " " * r.randint(0, 4)
+        elif kind == "pragma" and k == "code" and v == "(" and i + 1 < n and kinds[i + 1] == "code" and r.random() < 0.3:
+            v = "(\n-- pragma keep\n"
         out.append("\n" if (k == "cr" and v == vals[i]) else v)
     text = "".join(out)
     lines = text.split("\n")
@@ -61,7 +66,7 @@ def one(path):
     base = roles(o, K)
     seed = int(hashlib.sha1(path.split("/tests/")[-1].encode()).hexdigest()[:8], 16)
     probs = []
-    for kind in ("ws", "case", "split", "join", "comment"):
+    for kind in ("ws", "case", "split", "join", "comment", "pragma"):
         r = random.Random(seed)
         lines = relayout(o, K, kind, r)
         try:
